@@ -904,9 +904,9 @@ Proof.
 Qed.
 
 (* ====================================================================================== *)
-(* ---------- unparseable ranges: ignored today, rejected by the repaired validation ---------- *)
+(* ---------- unparseable ranges: skipped by the index, rejected by ValidateMatchIndex (validate_strict) ---------- *)
 
-(* what the code does today: a range whose svlan or cvlan string does not parse contributes no claim *)
+(* BuildMatchIndex: a range whose svlan or cvlan string does not parse contributes no claim *)
 Lemma malformed_range_no_claims name i sv cv rest :
   parse_vlan_range sv = None \/ parse_cvlan cv = None ->
   range_claims name i ((sv, cv) :: rest) = range_claims name (S i) rest.
@@ -981,7 +981,7 @@ Proof.
   destruct Hg as [->|Hg]; [eapply group_items_bad; eauto|apply IH; assumption].
 Qed.
 
-(* on configurations without unparseable strings the repaired validation is today's validation *)
+(* on configurations without unparseable strings ValidateMatchIndex is the collision scan *)
 Lemma strict_agrees cfg : all_parse cfg -> validate_strict cfg = verdict_of (validate cfg).
 Proof. intros H. unfold validate_strict, validate. rewrite (items_ok cfg H). apply strict_aux_claims. Qed.
 
